@@ -23,4 +23,4 @@ def _nontrivial(c):
 
 
 mach.install(globals(), "C04", ("EvBefore", "EvFlush"), ("C04:",), PROFILES, n_quick=300, n_thorough=5000,
-             nontrivial=_nontrivial, case_filter=machmon.yield_only)
+             nontrivial=_nontrivial, case_filter=machmon.yield_only, level="proof")
